@@ -20,6 +20,8 @@ enum Op {
     Ev(u16),
     Wrote(usize),
     Alloc(u16),
+    Remove(u16),
+    Grow(usize),
     Tail,
 }
 
@@ -42,6 +44,8 @@ fn op_term(o: &Op) -> String {
         Op::Ev(ch) => format!("WEv {}", ch),
         Op::Wrote(k) => format!("WWrote {}", k),
         Op::Alloc(ch) => format!("WAlloc {}", ch),
+        Op::Remove(ch) => format!("WRemove {}", ch),
+        Op::Grow(k) => format!("WGrow {}", k),
         Op::Tail => "WTail".into(),
     }
 }
@@ -72,10 +76,15 @@ fn message(ch: u16, seq: u32, len: usize) -> Vec<u8> {
 }
 
 /// the wire must be whole messages, per channel seq 0, 1, 2, ... exactly the accepted ones
-fn delivered(wire: &[u8], accepted: &BTreeMap<u16, u32>) -> bool {
+fn delivered(wire: &[u8], accepted: &BTreeMap<u16, u32>, closed: &[u16]) -> bool {
     let mut next: BTreeMap<u16, u32> = BTreeMap::new();
     let mut i = 0;
     while i < wire.len() {
+        // the thread's own Channel.CloseOk (a method frame, 12 bytes) between messages
+        if wire.len() - i >= 12 && wire[i] == 1 && wire[i + 3..i + 11] == [0, 0, 0, 4, 0, 20, 0, 41] && wire[i + 11] == 206 {
+            i += 12;
+            continue;
+        }
         if wire.len() - i < 8 {
             return false;
         }
@@ -92,7 +101,15 @@ fn delivered(wire: &[u8], accepted: &BTreeMap<u16, u32>) -> bool {
         *n += 1;
         i += len;
     }
-    accepted.iter().all(|(ch, n)| next.get(ch).copied().unwrap_or(0) == *n) && next.iter().all(|(ch, n)| accepted.get(ch).copied().unwrap_or(0) == *n)
+    // a channel the server closed: what its mailbox still held went with it (a prefix was delivered)
+    accepted.iter().all(|(ch, n)| { let d = next.get(ch).copied().unwrap_or(0); if closed.contains(ch) { d <= *n } else { d == *n } })
+        && next.iter().all(|(ch, n)| accepted.get(ch).copied().unwrap_or(0) >= *n)
+}
+
+fn channel_close_frame(ch: u16) -> Vec<u8> {
+    use amq_protocol::frame::AMQPFrame;
+    use amq_protocol::protocol::{channel, AMQPClass};
+    crate::wire::encode(&AMQPFrame::Method(ch, AMQPClass::Channel(channel::AMQPMethod::Close(channel::Close { reply_code: 404, reply_text: "gone".into(), class_id: 0, method_id: 0 }))))
 }
 
 pub struct Outcome {
@@ -103,6 +120,7 @@ pub struct Outcome {
     pub refused: bool,
     pub alloc_throttled: bool,
     pub dropped: bool,
+    pub lost_all: bool,
     pub loop_err: Option<String>,
 }
 
@@ -119,6 +137,14 @@ pub fn scenario(sub: u64) -> Outcome {
     // the same batch, another channel's event comes after that
     let directed = rng.chance(1, 4);
     let nch = if directed { nch.max(2) } else { nch };
+    // one scenario in six: while the connection is throttled the server closes EVERY channel (one
+    // per batch); the transport then drains, the channels are polled again with none left, and a
+    // channel opened after that must work like any other
+    let lose_all = !directed && !with_drop && rng.chance(1, 5);
+    let mut closing: Option<u16> = None; // a Channel.Close pushed for the next socket event
+    let mut closed: Vec<u16> = Vec::new();
+    let mut phase_lost = 0u8; // 0 traffic, 1 closing the channels, 2 draining, 3 reopened
+    let mut extra_sent = 0usize;
     let mut steps: Vec<(Op, Obs)> = Vec::new();
     let mut tail_idx: Vec<usize> = Vec::new(); // positions of the WTail steps
     let mut interest_seen: Vec<u8> = Vec::new(); // the socket's interest as each callback found it
@@ -146,7 +172,16 @@ pub fn scenario(sub: u64) -> Outcome {
         for e in evs {
             if e.token == STREAM {
                 if e.written > 0 {
-                    steps.push((Op::Wrote(e.written), Obs::Out(e.out_after)));
+                    steps.push((Op::Wrote(e.written), if closing.is_some() { Obs::Any } else { Obs::Out(e.out_after) }));
+                }
+                if let Some(ch) = closing.take() {
+                    // the read of this event carried the server's Channel.Close(ch): the slot goes
+                    // (its receiver leaves the poll), Channel.CloseOk (12 bytes) is queued
+                    steps.push((Op::Remove(ch), Obs::Unit));
+                    steps.push((Op::Grow(12), Obs::Out(e.out_after)));
+                    chans.retain(|c| *c != ch);
+                    closed.push(ch);
+                    cl.drop_handle(ch);
                 }
             } else if e.token == ALLOC {
                 if let Some(id) = cl.take_alloc() {
@@ -171,6 +206,66 @@ pub fn scenario(sub: u64) -> Outcome {
         k += 1;
         throttled_now = out > high || (throttled_now && out > low);
         // --- the publishers and the transport ---
+        if lose_all && phase_lost == 0 && throttled_now && chans.len() >= nch {
+            phase_lost = 1;
+        }
+        if phase_lost == 1 {
+            // throttled: the transport takes nothing; the server closes one channel per batch
+            cl.script_writes(vec![]);
+            if let Some(&ch) = chans.first() {
+                cl.push_read(channel_close_frame(ch));
+                closing = Some(ch);
+            } else {
+                phase_lost = 2;
+            }
+            if phase_lost == 1 {
+                tail_idx.push(steps.len());
+                steps.push((Op::Tail, Obs::Unit));
+                return true;
+            }
+        }
+        if phase_lost == 2 {
+            // the transport drains: the tail resumes the channels - with none left
+            cl.script_writes((0..64).map(|_| Wr::Wrote(100_000)).collect());
+            if !throttled_now && out == 0 {
+                if !pending_alloc && chans.is_empty() && cl.alloc_req() {
+                    pending_alloc = true;
+                }
+                if !chans.is_empty() {
+                    phase_lost = 3;
+                }
+            }
+            if phase_lost == 2 {
+                if k > 400 {
+                    return false;
+                }
+                tail_idx.push(steps.len());
+                steps.push((Op::Tail, Obs::Unit));
+                return true;
+            }
+        }
+        if phase_lost == 3 {
+            // the new channel is used like any other
+            cl.script_writes((0..64).map(|_| Wr::Wrote(100_000)).collect());
+            if extra_sent < 3 {
+                let ch = chans[0];
+                let s = *seq.get(&ch).unwrap_or(&0);
+                let ok = cl.send(ch, message(ch, s, 20));
+                steps.push((Op::Send(ch, 20), Obs::Accepted(ok)));
+                if ok {
+                    seq.insert(ch, s + 1);
+                    extra_sent += 1;
+                }
+            }
+            let busy = out > 0 || !polled.is_empty() || extra_sent < 3;
+            quiet = if busy { 0 } else { quiet + 1 };
+            if quiet >= 3 || k > 600 {
+                return false;
+            }
+            tail_idx.push(steps.len());
+            steps.push((Op::Tail, Obs::Unit));
+            return true;
+        }
         let setup = chans.len() < nch;
         if setup {
             if !pending_alloc && cl.alloc_req() {
@@ -291,7 +386,7 @@ pub fn scenario(sub: u64) -> Outcome {
     let client_dropped_end = matches!(&res, Err(amiquip::Error::EventLoopClientDropped));
     let ok_end = res.is_ok() || (dropped && client_dropped_end);
     // when the loop ended because a handle was dropped, what that channel still held is moot
-    let all = if dropped { true } else { delivered(&wire, &seq) };
+    let all = if dropped { true } else { delivered(&wire, &seq, &closed) };
     let term = format!(
         "(({}, {}, {}), {}, {}, {})",
         bound,
@@ -301,7 +396,7 @@ pub fn scenario(sub: u64) -> Outcome {
         coqfmt::b(all && ok_end),
         mx
     );
-    Outcome { term, steps: steps.len(), throttled, rearmed, refused, alloc_throttled, dropped, loop_err }
+    Outcome { term, steps: steps.len(), throttled, rearmed, refused, alloc_throttled, dropped, lost_all: phase_lost == 3 && extra_sent == 3, loop_err }
 }
 
 pub fn run(a: &Args) {
@@ -344,6 +439,9 @@ pub fn run(a: &Args) {
         }
         if o.dropped {
             sink.count("handle-dropped");
+        }
+        if o.lost_all {
+            sink.count("all-channels-closed-while-throttled-then-reopened");
         }
         if let Some(e) = &o.loop_err {
             sink.count(&format!("loop-ended:{}", e.chars().take(40).collect::<String>()));
